@@ -126,6 +126,17 @@ def all_cases():
         vec = ("sum", ("vun", f, V3)) if f else ("sum", ("vpow", V3, k))
         gen = elementwise((lambda e, f=f: ("un", f, e)) if f else (lambda e, k=k: ("bin", "**", e, ("c", k))))
         yield {"id": ("huge+singular-vector", f or k, "paths"), "rows": (vec,), "twin": (gen,), "points": vt}
+    # norms at tiny NON-zero vectors (regular points: the gradient of the 2-norm is the unit vector v/|v|, entries of order 1)
+    vtiny = {"v[0]": (3e-13, 3e-100, 0.0, -3e-13, 6e-9), "v[1]": (4e-13, 4e-100, 5e-13, 0.0, 8e-9), "v[2]": (0.0, 0.0, 0.0, 4e-13, 0.0),
+             "y": (0.75, 0.75, 0.75, 0.75, 0.75)}
+    for o in (1, 2):
+        n = ("norm", V3, o)
+        yield {"id": ("norm-tiny", o, "alone"), "rows": (n,), "points": vtiny}
+        yield {"id": ("norm-tiny", o, "+R"), "rows": (("bin", "+", n, R),), "points": vtiny}
+        yield {"id": ("norm-tiny", o, "2rows"), "rows": (R, n), "points": vtiny}
+        yield {"id": ("norm-tiny", o, "scaled"), "rows": (("bin", "*", ("c", 3), n),), "points": vtiny}
+        yield {"id": ("norm-tiny", o, "of-expr"), "rows": (("norm", ("vbin", "*", V3, ("c", 2)), o),), "points": vtiny}
+        yield {"id": ("norm-tiny", o, "of-view"), "rows": (("norm", ("slice", V3, None, None, -1), o),), "points": vtiny}
     for f in VEC_FUN:
         vec = ("sum", ("vun", f, V3))
         gen = elementwise(lambda e, f=f: ("un", f, e))
